@@ -399,18 +399,17 @@ PROPS = {
                 'limit 100 or 1-4; scenarios (i mod 6): plain, removal of the head (was D38), suspend/resume/pause with and without an Add meanwhile (was D49), Rem/Add while the callback runs (was D26) and '
                 'Add at capacity (was D50), small limits, recurring; crolt: 3-8 Add (durations, cron expressions, client once/evict, malformed ids and schedules) / Delete / DeleteAccount / reopen over '
                 '5 accounts x 3 ids and 1-4 partitions, work on every partition after sleeps past the due instants and past TTL (300 ms), 12 due entries for the limit of 10, an Add carrying a '
-                'foreign TId (D40); non-trivial = something fired (cron) / fired or was evicted (crolt); distinct by hash of inputs and observations',
-        'refuted': ['client_tid_breaks_consistency_counterexample (D40)', 'work_fires_subsecond_early_counterexample, work_defers_due_entry_counterexample (D39)'],
+                'foreign TId (was D40); non-trivial = something fired (cron) / fired or was evicted (crolt); distinct by hash of inputs and observations',
+        'refuted': [],
         'level_text': 'Coq theorems over the executable models of cron.Cron (timeline, running callbacks, timer target; Add/Rem/tick/callback return/suspend/resume/pause) and of the crolt buckets '
                       '(jobs and time maps with Bolt\'s key order, Add/Delete/DeleteAccount/work/reopen), for ALL operation sequences, no size bound: timeline_sorted, unique_ids, no_early_fire, '
                       'oneshot_fires_at_most_once, recurring_once_per_occurrence, removed_never_fires (pending or running), rem_found_iff, suspend_keeps_jobs, suspended_quiet (unconditional), suspended_timer_stopped, '
                       'resume_rearms, timer_armed_invariant / never_stalled (all histories), rem_rearms_timer, refused_add_no_effect, add_ok_iff; '
-                      'buckets_consistent (every op, every history, restart), one_time_entry_per_job, delete_removes_both, work_fires_due_only, oneshot_becomes_evict, evict_entry_removed. '
+                      'buckets_consistent (every op, every history, restart; no hypothesis on the requests), client_tid_ignored, one_time_entry_per_job, delete_removes_both, work_fires_due_only (exactly: instant earlier than now), key_order_is_time_order, time_bucket_in_time_order, due_entry_is_served, oneshot_becomes_evict, evict_entry_removed. '
                       'Tie to the code: timed scripts on the real cron.Cron and op-by-op bucket scans of the real crolt service replayed through the extracted models; the specification judged on the observations.',
         'level_note': 'Repaired in /repo (fix commits; the model is the model of the repaired code and the former refutations are now theorems): D26 (recurring job removed/replaced while its callback runs came back), '
                       'D38 (Rem of the head left the timer un-armed), D49 (an Add, a callback return or a pause while suspended re-armed the timer: jobs fired while suspended), D50 (Add of a pending id at capacity removed the job). '
-                      'Known findings: D40 (crolt Add accepts a client TId and deletes that time entry), D39 (crolt time keys are RFC3339Nano strings with trimmed zeros: inside one second key order is not time order; '
-                      'whole-second keys wait one more second). Trusted: Bolt transaction atomicity/durability (reopen is the identity in the model; checked on the real file by the harness), '
+                      'D40 (crolt Add accepted a client TId and deleted that time entry: Add clears it now) and D39 (crolt time keys were RFC3339Nano strings with trimmed zeros, so that inside one second key order was not time order and whole-second keys waited one more second: keys and the bound of work use a fixed-width layout now; entries written by an older binary are still found by work, at the latest one second after their instant as before, and are re-keyed when they fire). Trusted: Bolt transaction atomicity/durability (reopen is the identity in the model; checked on the real file by the harness), '
                       'time.Timer semantics (a stopped or expired timer delivers nothing more), goroutine start latency below the margins (operations nearer than 10 ms to a simulated event, or later than 15 ms, are counted ambiguous).',
         'technique': 'Coq proofs by invariant over operation sequences (fold_left) + event-driven differential replay of timed scripts (cron) and bucket-by-bucket differential replay of a child process (crolt)',
         'assumptions': ['every critical section of cron.Cron runs under its mutex (one model op per section)',
